@@ -247,6 +247,19 @@ fn process_cpu_ticks() -> u64 {
     get(11) + get(12)
 }
 
+/// Minor + major page faults of this process so far (fields 10 and 12 of /proc/self/stat). Touching
+/// fresh memory is progress too: a constructor that zero-fills gigabytes of tables (the aligned
+/// match-finder tables are `alloc_zeroed` with an over-aligned layout = allocate + memset) runs for
+/// tens of seconds on a loaded machine without a single coder or I/O event, but faults a page in every
+/// few microseconds; a loop that spins on unchanged state faults nothing.
+fn process_page_faults() -> u64 {
+    let s = std::fs::read_to_string("/proc/self/stat").unwrap_or_default();
+    let rest = s.rsplit(')').next().unwrap_or("");
+    let f: Vec<&str> = rest.split_whitespace().collect();
+    let get = |i: usize| f.get(i).and_then(|x| x.parse::<u64>().ok()).unwrap_or(0);
+    get(7) + get(9)
+}
+
 /// Runs `f` on its own thread under a watchdog. Under Miri `f` runs inline (the interpreter
 /// reports deadlocks exactly).
 pub fn guarded<T: Send + 'static>(first_check_ms: u64, hard_limit_ms: u64, f: impl FnOnce() -> T + Send + 'static) -> Guarded<T> {
@@ -274,7 +287,11 @@ pub fn guarded<T: Send + 'static>(first_check_ms: u64, hard_limit_ms: u64, f: im
         let c: u64 = verif::counters().iter().fold(0u64, |a, b| a.wrapping_add(*b));
         let fp: u64 = verif::fp_stats().iter().map(|(h, _)| *h).sum();
         let (live, _, total) = verif::census();
-        c.wrapping_add(crate::fio::IO_TICKS.load(std::sync::atomic::Ordering::Relaxed)).wrapping_add(fp).wrapping_add(live).wrapping_add(total.wrapping_mul(7))
+        c.wrapping_add(crate::fio::IO_TICKS.load(std::sync::atomic::Ordering::Relaxed))
+            .wrapping_add(fp)
+            .wrapping_add(live)
+            .wrapping_add(total.wrapping_mul(7))
+            .wrapping_add(process_page_faults().wrapping_mul(13))
     };
     let spin_quiet_ms: u128 = SPIN_QUIET_MS.load(std::sync::atomic::Ordering::Relaxed) as u128;
     let mut last_progress = work_progress();
@@ -323,7 +340,7 @@ pub fn guarded<T: Send + 'static>(first_check_ms: u64, hard_limit_ms: u64, f: im
                             return Guarded::Done(v);
                         }
                         return Guarded::Stuck(format!(
-                            "spinning: no progress event (coder symbol, decoder hand-over, source/sink call, worker start/stop) for {} ms while the process burned {} ms of CPU",
+                            "spinning: no progress event (coder symbol, decoder hand-over, source/sink call, worker start/stop, page fault) for {} ms while the process burned {} ms of CPU",
                             last_change.elapsed().as_millis(),
                             burned_ms
                         ));
